@@ -27,6 +27,7 @@ fn main() {
         "sched" => sched::run(&args[2], &workdir),
         "crashb" => crash::run_b(&args[2], &args[3], args.get(4).map(|s| s.as_str()).unwrap_or("A")),
         "crashc" => crash::run_c(&args[2]),
+        "crashc11" => crash::run_c11(&args[2]),
         d => {
             eprintln!("unknown driver {}", d);
             std::process::exit(2);
